@@ -87,6 +87,11 @@ def cases(rng, tier):
 				continue
 			seen.add(p)
 			yield ('acc', name, rng.choice([b', ', b',', b' , ']).join(p))
+	# long lists: element counts around the numbers a limit, a cache or a sorting shortcut would have
+	for k in (17, 33, 65, 129, 300) + ((1025,) if tier == 'thorough' else ()):
+		for name in NAMES:
+			els = [element(rng, name) for _ in range(k)]
+			yield ('acc', name, b', '.join(els))
 	# dense q grid: adjacent thousandths
 	for i in range(0, 1000, 1 if tier == 'thorough' else 7):
 		a, b = b'0.%03d' % i, b'0.%03d' % min(i + 1, 999)
